@@ -113,6 +113,9 @@ type Program struct {
 	Nodes   []*Node // filled by Number (index i holds node id i+1)
 	Root    *Node
 	Meta    map[string]interface{}
+	// MinParens: binary operators are printed with the parentheses the documented precedence and left associativity require, and
+	// no others (the node table handed to the model still says which tree is meant)
+	MinParens bool
 
 	nodeFile []string
 }
@@ -319,8 +322,55 @@ func (p *Program) Table() []map[string]interface{} {
 // ---------------------------------------------------------------- printer
 
 type printer struct {
-	buf    bytes.Buffer
-	indent int
+	buf       bytes.Buffer
+	indent    int
+	minParens bool
+}
+
+// precedence of binary operators as documented (docs/operators.md): higher binds tighter, all left associative
+func docPrec(n *Node) int {
+	switch n.T {
+	case "or":
+		return 1
+	case "and":
+		return 2
+	}
+	switch n.Op {
+	case "==", "!=", "<", "<=", ">", ">=":
+		return 3
+	case "+", "-", "|", "^":
+		return 4
+	}
+	return 5 // * / % << >> & &^
+}
+
+// operand prints a child of a binary operator in MinParens mode
+func (p *printer) operand(c *Node, parentPrec int, right bool) {
+	switch c.T {
+	case "bin", "and", "or":
+		cp := docPrec(c)
+		if cp < parentPrec || (cp == parentPrec && right) {
+			p.expr(c) // keeps its own parentheses
+			return
+		}
+		c.Pos = p.buf.Len()
+		p.binaryInner(c)
+		c.End = p.buf.Len()
+	default:
+		p.expr(c)
+	}
+}
+
+func (p *printer) binaryInner(n *Node) {
+	op := n.Op
+	if n.T == "and" {
+		op = "&&"
+	} else if n.T == "or" {
+		op = "||"
+	}
+	p.operand(n.L, docPrec(n), false)
+	p.buf.WriteString(" " + op + " ")
+	p.operand(n.R, docPrec(n), true)
 }
 
 func (p *printer) ws() {
@@ -443,6 +493,12 @@ func (p *printer) expr(n *Node) {
 			op = "&&"
 		} else if n.T == "or" {
 			op = "||"
+		}
+		if p.minParens {
+			w("(")
+			p.binaryInner(n)
+			w(")")
+			break
 		}
 		w("(")
 		p.expr(n.L)
@@ -655,7 +711,7 @@ func (p *printer) stmt(n *Node) {
 
 // Print renders the program and records the extent of every node.
 func (p *Program) Print() string {
-	pr := &printer{}
+	pr := &printer{minParens: p.MinParens}
 	for _, s := range p.Stmts {
 		pr.stmt(s)
 		pr.buf.WriteString("\n")
@@ -672,6 +728,7 @@ func (p *Program) Export() map[string]interface{} {
 	mods := make([]interface{}, 0)
 	for _, m := range p.Modules {
 		if m.Prog.Src == "" {
+			m.Prog.MinParens = p.MinParens
 			m.Prog.Print()
 		}
 		mods = append(mods, map[string]interface{}{"name": m.Name, "src": m.Prog.Src})
